@@ -270,6 +270,7 @@ pub struct EvalInfo {
     pub touched: bool,
     pub swallowed: u64,
     pub wal_skipped_state: bool,
+    pub compacted: bool,
 }
 
 #[derive(Debug, Clone)]
@@ -461,6 +462,48 @@ fn eval_inner(p: &CorruptPoint) -> Result<EvalInfo, (String, bool)> {
                     if !a.contains(&None) && !seen.contains(k) {
                         return Err((format!("scan ended without an error but {} is missing", hex(k)), false));
                     }
+                }
+            }
+        }
+    }
+    // A compaction over the damaged table must not turn the damage into silently missing or
+    // resurrected data: it either fails (the files stay) or rewrites what it could verify.
+    if p.file.ends_with(".rdb") && mix(damage_at as u64, p.file.len() as u64) % 4 == 0 {
+        db.compact_range(None..None);
+        db.verif_wait_idle(Duration::from_secs(600));
+        info.compacted = true;
+        for k in img.universe.iter() {
+            let k = &k.0;
+            let a = &allowed[k];
+            match db.get(ReadOptions::default(), k) {
+                Ok(v) => {
+                    if !a.contains(&Some(v.clone())) {
+                        let never = !ever.get(k).map_or(false, |s| s.contains(&v));
+                        return Err((
+                            format!(
+                                "after compact_range over the damaged table get({}) returned {} which {}",
+                                hex(k),
+                                hex(&v),
+                                if never { "was never written for that key" } else { "is an older value of that key (resurrected)" }
+                            ),
+                            never,
+                        ));
+                    }
+                }
+                Err(RainDBError::KeyNotFound) => {
+                    if !a.contains(&None) {
+                        return Err((
+                            format!(
+                                "after compact_range over the damaged table get({}) returned KeyNotFound without any error although {} is stored (the compaction dropped it silently)",
+                                hex(k),
+                                a[0].as_ref().map(|v| hex(v)).unwrap_or_default()
+                            ),
+                            false,
+                        ));
+                    }
+                }
+                Err(_) => {
+                    info.read_errors += 1;
                 }
             }
         }
@@ -687,6 +730,9 @@ pub fn worker(ctx: &WorkerCtx) -> WorkerResult {
                 Outcome::Ok(i) => {
                     if i.touched {
                         r.nontrivial_hashes.push(mix(ch, hash_json(&(file.clone(), &mutation))));
+                    }
+                    if i.compacted {
+                        *r.classes.entry("table_damage_then_compact_range_then_reread".into()).or_insert(0) += 1;
                     }
                     if i.open_failed {
                         *r.classes.entry(format!("{kind}_damage_open_failed")).or_insert(0) += 1;
